@@ -344,7 +344,8 @@ func mkOps(N, BL int64, quick bool) []opDef {
 	I := N * BL
 	ops := []opDef{
 		{okAdd, window.EvPass, 1}, {okAdd, window.EvPass, 3},
-		{okAdd, window.EvRt, 7}, {okAdd, window.EvRt, 2}, {okAdd, window.EvComplete, 1},
+		// response times on both sides of the default statistic maximum (60000 ms): sums are sums
+		{okAdd, window.EvRt, 7}, {okAdd, window.EvRt, 70000}, {okAdd, window.EvComplete, 1},
 		{okConc, 0, 2}, {okConc, 0, 5}, // two levels: a maximum differs from "the last one seen"
 	}
 	if !quick {
